@@ -183,7 +183,9 @@ fn cli_reference(dict: &Dict, content: &str, f: &Flags) -> Result<String, String
 }
 
 fn cli_files(max_lines: usize) -> Vec<String> {
-    let bodies = ["", "東京都", "1,000円", "あ。い", " ", "京都・・・東京", "あ<br><br>い"];
+    // (the last body ends in a character that is rewritten to a word with two units: in modes A and B the line ends
+    // with a morpheme of zero width in the original text)
+    let bodies = ["", "東京都", "1,000円", "あ。い", " ", "京都・・・東京", "あ<br><br>い", "京都㍿"];
     let terms = ["\n", "\r\n"];
     let mut all: Vec<String> = Vec::new();
     let mut cur: Vec<String> = vec![String::new()];
@@ -277,7 +279,7 @@ pub fn setup() -> i32 {
 
 pub fn main(tier: Tier, replay: Option<String>) -> i32 {
     let mut rep = Report::new("C19", "model_checking", tier);
-    rep.rule = "CLI: every file of at most max_lines lines over the bodies {empty, 東京都, 1,000円, あ。い, blank, 京都・・・東京, あ<br><br>い} x terminators {LF, CRLF, none on the last line} x 9 flag sets (default, -a, -w, -m A, -m B -a, --split-sentences=no, -w with no splitting in mode A, default with the text on stdin, -a with -o <file>) is fed to the real `sudachi` binary; stdout must equal the bytes the library + documented format give for each line without its terminator. Python: every call sequence up to `depth` over tokenize(t) / tokenize(t, mode) / tokenize(t, out=L) / m.split(mode[, out=L2]) / lookup(q[, out=L]) / holding a morpheme across list reuse, for five tokenizer configurations (modes, field subset, projections normalized / reading), on the real extension in a sub-process; every result must equal the library's (JSON oracle), text[begin:end] must be the raw surface, a per-call mode must not stick, and the interpreter must exit normally. non-trivial = the file has more than one line / the sequence has more than one call".into();
+    rep.rule = "CLI: every file of at most max_lines lines over the bodies {empty, 東京都, 1,000円, あ。い, blank, 京都・・・東京, あ<br><br>い, 京都㍿} x terminators {LF, CRLF, none on the last line} x 9 flag sets (default, -a, -w, -m A, -m B -a, --split-sentences=no, -w with no splitting in mode A, default with the text on stdin, -a with -o <file>) is fed to the real `sudachi` binary; stdout must equal the bytes the library + documented format give for each line without its terminator. Python: every call sequence up to `depth` over tokenize(t) / tokenize(t, mode) / tokenize(t, out=L) / m.split(mode[, out=L2]) / lookup(q[, out=L]) / holding a morpheme across list reuse, for five tokenizer configurations (modes, field subset, projections normalized / reading), on the real extension in a sub-process; every result must equal the library's (JSON oracle), text[begin:end] must be the raw surface, a per-call mode must not stick, and the interpreter must exit normally. non-trivial = the file has more than one line / the sequence has more than one call".into();
     rep.assumptions = vec![
         "the subjects run out of process; enumeration is exhaustive within the bound, the verdict is differential against the in-process library on the same dictionary bytes and configuration".into(),
         "Dictionary.pre_tokenizer needs the `tokenizers` package, which is not installed in this sandbox: that path is not exercised".into(),
